@@ -40,7 +40,8 @@ ASSUMPTIONS = ['a trailing slash may either count as a present empty segment or 
                'predicate k_rest_empty_applies: ValueError or exactly pieces[:minsegs-1] + [remainder], nothing else',
                'items containing a single quote are double-quoted too; white space, backslashes outside quotes and '
                'escapes other than \\\\ and \\" are DONT-CARE for split_by_commas']
-SHARDS = {'quick': 1, 'thorough': 16}
+INTERPRETER_FLAGS = [[], ['-O'], [], ['-bb']]
+SHARDS = {'quick': 4, 'thorough': 16}
 
 SEG_CLASSES = ['plain', 'empty', 'dot', 'dotdot', 'spaced', 'unicode']
 PLAIN_POOL = ['a', 'c', 'o', 'r', 'v1', 'acct', 'cont', 'obj', 'X', '0', 'a-b', 'a_b', '%2F', '~u', 'a.b',
